@@ -83,6 +83,8 @@ def run(ctx, rep):
     rep.rule("R08.6", "an encoded response is actually transmitted: the send layer never strands a queued message (= R12.1-R12.3)")
     rep.rule("R08.8", "the pending-request table holds its entries strongly and sequence numbers come from one never-reset counter")
     rep.rule("R08.9", "a request is executed at most once: the call handler invokes its target exactly once, no retry (= R01.2)")
+    rep.rule("R08.11", "a response that arrives is delivered: a result object has no deadline nobody asked for, and a reply in time "
+             "is recorded (= R15.1)")
     rep.rule("R08.10", "each pending request has its own result object state: no mutable default / class-level table shared between AsyncResults")
     rep.assume("exceptions of the encode step are TypeError/ValueError(UnicodeError)/OverflowError; transmit failures are "
                "EOFError/OSError and may leave _dispatch_request (the connection is dead then, C11)",
@@ -530,3 +532,4 @@ def run(ctx, rep):
     K.share(ctx, rep, "c01", lambda o: o.rule == "R01.2" and "exactly once" in o.key, "R08.9", floor=1)
     from . import hygiene as H
     H.private_state(ctx, rep, "R08.10", "rpyc.core.async_.AsyncResult")
+    K.share(ctx, rep, "c15", lambda o: o.rule == "R15.1", "R08.11", floor=2)
